@@ -224,17 +224,17 @@ namespace fastscapelib
 
         neighbors_indices_type& get(const std::size_t& /*idx*/)
         {
-            return m_node_neighbors;
+            return node_neighbors();
         }
 
         neighbors_indices_type& get_storage(const std::size_t& /*idx*/)
         {
-            return m_node_neighbors;
+            return node_neighbors();
         }
 
         void store(const std::size_t& /*idx*/, const neighbors_indices_type neighbors_indices)
         {
-            m_node_neighbors = neighbors_indices;
+            node_neighbors() = neighbors_indices;
         }
 
         std::size_t cache_size() const
@@ -256,7 +256,13 @@ namespace fastscapelib
         }
 
     protected:
-        neighbors_indices_type m_node_neighbors;
+        // temporary storage, one per thread: the neighbors of different
+        // nodes may be looked up concurrently (e.g., parallel flow routing)
+        static neighbors_indices_type& node_neighbors()
+        {
+            static thread_local neighbors_indices_type storage;
+            return storage;
+        }
     };
 
     //****************
